@@ -505,7 +505,23 @@ def resolve_env(crate, body, term, depth=0):
     try:
         parent = crate.body(re.compile('^' + re.escape(body.parent) + '$'))
     except CheckError:
-        return term
+        # the function the closure was written in is gone (a new helper spliced into its callers): the body that now builds it
+        idx = getattr(crate, '_closure_builders', None)
+        if idx is None:
+            idx = {}
+            for bd in crate.bodies:
+                if bd.kind == 'promoted':
+                    continue
+                for blk in bd.blocks:
+                    for st in blk['stmts']:
+                        a_ = (st.get('rv') or {}).get('agg') if isinstance(st.get('rv'), dict) else None
+                        if a_ and a_.get('kind') in ('closure', 'coroutine', 'coroutine_closure') and a_.get('def'):
+                            idx.setdefault(a_['def'], []).append(bd)
+            crate._closure_builders = idx
+        bl = [x for x in idx.get(body.path, []) if x is not body]
+        if len(bl) != 1:
+            return term
+        parent = bl[0]
     caps = {}
     for bb, i, p, a, ops in mirlib.aggregates(parent):
         if a.get('kind') in ('closure', 'coroutine', 'coroutine_closure') and a.get('def') == body.path:
@@ -654,6 +670,13 @@ def family(crate, body, depth=0):
         kn = mirlib.known_fns().get(crate.name, set())
         for src in list(out):
             for bb, i, p, a, ops in mirlib.aggregates(src):
+                if a.get('kind') == 'closure' and a.get('def'):
+                    # a closure written in a helper that was spliced into this body
+                    fnp = a['def'].split('::{closure', 1)[0]
+                    if fnp not in kn and not a['def'].startswith(body.path + '::'):
+                        for c in [x for x in crate.bodies if x.path == a['def'] or x.path.startswith(a['def'] + '::')]:
+                            if c not in out and c.kind in ('closure', 'coroutine'):
+                                out.append(c)
                 if a.get('kind') == 'coroutine' and a.get('def'):
                     fnp = a['def'].rsplit('::{closure#0}', 1)[0]
                     if fnp not in kn:
@@ -925,3 +948,26 @@ def encode_buf_field(tonic):
         raise CheckError('UNRECOGNISED: the output buffer passed to encode_item is not a BytesMut field of EncodedBytes')
     _ROLE_CACHE[key] = (tonic, fl[-1])
     return fl[-1]
+
+
+def const_value(crate, term, depth=0):
+    """the constant a term denotes: a literal, or a named const / static of this crate whose initialiser is a literal"""
+    t = strip_refs(term)
+    v = const_val(t)
+    if v is not None:
+        return v
+    cd = constdef(t)
+    if cd and depth < 3:
+        for bd in crate.by_path.get(cd, []):
+            if bd.kind in ('const', 'static'):
+                rt = mirlib.returned_terms(bd)
+                if len(rt) == 1:
+                    return const_value(crate, rt[0][1], depth + 1)
+        c = None
+        try:
+            c = crate.const(cd)
+        except CheckError:
+            pass
+        if c and 'v' in c:
+            return c['v']
+    return None
